@@ -257,7 +257,10 @@ def shape_self_product_input():
 
 
 def shape_unfresh_pruning():
-    """C amends the output of P late, while other commands start and stop in between."""
+    """C reads p.txt early and amends it late; P stops while C runs; D is dispatched after P stopped and
+    keeps running; E stops while C and D run (this is when stop times are pruned); then C amends.
+    Under a round-robin (fifo) schedule with three jobs the commands advance one operation per round."""
+    nops = lambda n: [["nop"] for _ in range(n)]  # noqa: E731
     return {
         "name": "unfresh_pruning",
         "sources": {"plan.py": ["v1"], "s1.txt": ["a", "b"]},
@@ -269,20 +272,18 @@ def shape_unfresh_pruning():
                         ["static", ["s1.txt"]],
                         ["step", "C", {"inp": ["s1.txt"], "out": ["c.txt"]}],
                         ["step", "P", {"inp": ["s1.txt"], "out": ["p.txt"]}],
-                        ["step", "D", {"inp": ["s1.txt"], "out": ["d.txt"]}],
                         ["step", "E", {"inp": ["s1.txt"], "out": ["e.txt"]}],
-                        ["step", "F", {"inp": ["s1.txt"], "out": ["f.txt"]}],
+                        ["step", "D", {"inp": ["s1.txt"], "out": ["d.txt"]}],
                     ]
                 },
             },
             # reads first, declares afterwards (which amend() allows): what it read is only valid if the
             # producer had stopped before this command started
-            "C": [["read", "p.txt", "optional"], ["nop"], ["nop"], ["nop"], ["nop"], ["nop"], ["nop"], ["amend", {"inp": ["p.txt"]}], ["read", "p.txt"],
-                  ["read_declared"], ["write_declared"]],
+            "C": [["read", "p.txt", "optional"]] + nops(14) + [["amend", {"inp": ["p.txt"]}], ["read", "p.txt"],
+                                                               ["read_declared"], ["write_declared"]],
             "P": GENERIC_WORKER,
-            "D": [["nop"], ["nop"], ["nop"], ["nop"], ["nop"], ["nop"], ["nop"], ["nop"], ["read_declared"], ["write_declared"]],
-            "E": GENERIC_WORKER,
-            "F": [["nop"], ["nop"], ["read_declared"], ["write_declared"]],
+            "E": nops(6) + GENERIC_WORKER,
+            "D": nops(20) + GENERIC_WORKER,
         },
     }
 
